@@ -898,6 +898,15 @@ func (p *proxyObject) assertConstructor() func(args []Value, newTarget *Object) 
 	return nil
 }
 
+// hasInstance is OrdinaryHasInstance(proxy, v): a callable proxy is an ordinary right-hand side of
+// instanceof (its "prototype" is read through the get trap).
+func (p *proxyObject) hasInstance(v Value) bool {
+	if p.call == nil {
+		return p.baseObject.hasInstance(v)
+	}
+	return hasInstance(p.val, v)
+}
+
 func (p *proxyObject) apply(call FunctionCall) Value {
 	if p.call == nil {
 		panic(p.val.runtime.NewTypeError("proxy target is not a function"))
